@@ -19,6 +19,7 @@ PROP_UNITS = {
     'C04': ['tt', 'mate'],
     'C13': ['mate'],
     'C18': ['book'],
+    'C07': ['nn'],
 }
 
 
